@@ -380,6 +380,9 @@ func (p *idp) mint(ans *AnsSpec, grant string, lg *login, old *rtRec) (map[strin
 		ts.Aud, audOK = nil, false
 	case "audForeign":
 		ts.Aud, audOK = pickAny(ans.Variant, "some-other-client", []any{"x", "y"}), false
+	case "audForeignAzpClient":
+		ts.Aud, audOK = pickAny(ans.Variant, "account", []any{"account", "another-client"}), false
+		ts.Azp = lg.clientID
 	case "audNearMiss":
 		ts.Aud, audOK = pickAny(ans.Variant, lg.clientID+"x", strings.ToUpper(lg.clientID), " "+lg.clientID, []any{lg.clientID + "/"}), false
 	case "audArrayWithClient":
